@@ -103,7 +103,9 @@ def run(chk, binary):
         if rng.random() < 0.3:
             # an earlier history (counts, sessions, undo, dot, visual operators): what it leaves behind in the editor
             # must not change what the command under test does to text and registers
-            hist = [rng.choice(["3p", "2P", "3ix<esc>", "2oab<esc>", "3J", "3x", "2dw", "3~", "2rZ", "xu", "x3.", "5l", "vjd", "Vy", "ddu", "<c-v>jly", '"ayy3"ap', "yiw2P", "3u", "Vg?."])
+            hist = [rng.choice(["3p", "2P", "3ix<esc>", "2oab<esc>", "3J", "3x", "2dw", "3~", "2rZ", "xu", "x3.", "5l", "vjd", "Vy", "ddu", "<c-v>jly", '"ayy3"ap', "yiw2P", "3u", "Vg?.",
+                                # an insert started from a selection, a block yank: what they leave behind must not turn the next plain insert into a block insert
+                                "vlcXY<esc>", "<c-v>jy", "<c-v>jIab<esc>", "vlcXY<esc>j<c-v>jy", "<c-v>jcQ<esc>gg"])
                     if rng.random() < 0.7 else V.edit(rng) for _ in range(rng.randint(1, 2))]
             pre = hist + pre
             r2 = rng.random()
@@ -269,6 +271,46 @@ def run(chk, binary):
         if untxt(mrest) != after or [untxt(r) for r in mrows] != [t]:
             chk.violation("correspondence:drain + register write", dict(case0, impl_after=after, model_after=untxt(mrest), impl_reg=t, model_reg=[untxt(r) for r in mrows]), concrete=False)
     chk.cov["traces_validated_against_impl"] = len(ecases)
+    # ---- a plain insert after inserts started from selections and after block yanks: it adds what was typed, on its line only ----
+    ireqs, imeta = [], []
+    for _ in range(300 if thorough else 50):
+        text = rng.choice(["abcd\nefgh\nijkl\nmnop\nqrst\n", "ab cd\nef gh\nij kl\nmn op\n", "é1\nü2\nß3\n日4\n"])
+        pre = [rng.choice(["vlcXY<esc>", "<c-v>jIXY<esc>", "<c-v>jcQ<esc>", "vec-<esc>", "<c-v>j$Az<esc>"])]
+        if rng.random() < 0.7:
+            pre.append(rng.choice(["j<c-v>jy", "<c-v>jy", "gg<c-v>jly", "vly", "Vy"]))
+        typed = rng.choice(["QRS", "é!", "a b", "日"])
+        ins = rng.choice(["j", "jj", "gg", "k", ""]) + rng.choice(["i", "a", "A", "I"]) + typed + "<esc>"
+        ireqs.append({"op": "keys", "text": text, "cursor": 0, "keys": pre + [ins]})
+        imeta.append((text, pre, ins, typed))
+    for (text, pre, ins, typed), a in zip(imeta, server_map(binary, ireqs)):
+        chk.count(("c08-insert-after-visual", text, tuple(pre), ins), nontrivial=True)
+        dist["plain_insert_after_visual"] = dist.get("plain_insert_after_visual", 0) + 1
+        steps = a.get("steps") or []
+        if len(steps) != len(pre) + 1 or "buf" not in steps[-1] or "buf" not in steps[-2]:
+            continue
+        before, after = steps[-2]["buf"].split("\n"), steps[-1]["buf"].split("\n")
+        changed = [k_ for k_ in range(max(len(before), len(after))) if (before[k_] if k_ < len(before) else None) != (after[k_] if k_ < len(after) else None)]
+        ok = len(before) == len(after) and len(changed) == 1 and len(after[changed[0]]) == len(before[changed[0]]) + len(typed) and typed in after[changed[0]]
+        if not ok:
+            chk.violation("spec:an insert session changed more than the text it typed", {"text": text, "keys": pre + [ins], "typed": typed, "before": steps[-2]["buf"], "after": steps[-1]["buf"]})
+    # ---- a register read from a vic script (@a) is the register: copied to another one and put, it gives what putting it directly gives ----
+    from ..common import cli_map
+    vjobs, vmeta = [], []
+    for text in ["first line\nsecond line\nthird\n", "é1 x\nü2 y\nend", "a\n\nb\n"]:
+        for yank in ['\\"ayy', '\\"ayj', '\\"ayiw', '\\"ay$', '\\"add']:
+            for put in ["G", "gg", "j"]:
+                s1 = 'move "%s"\nyank @b @a\nmove "%s\\"bP"\n' % (yank, put)
+                s2 = 'move "%s"\nmove "%s\\"aP"\n' % (yank, put)
+                vjobs += [{"args": [s1], "stdin": text}, {"args": [s2], "stdin": text}]
+                vmeta.append((text, s1, s2))
+    vres = cli_map(binary, vjobs)
+    for k_, (text, s1, s2) in enumerate(vmeta):
+        r1, r2 = vres[2 * k_], vres[2 * k_ + 1]
+        chk.count(("c08-vic-register", text, s1), nontrivial=True)
+        dist["register_read_by_script"] = dist.get("register_read_by_script", 0) + 1
+        if (r1[0], r1[1]) != (r2[0], r2[1]):
+            chk.violation("spec:a register read from a vic script is not the text the register holds", {"stdin": text, "script_copy": s1, "script_direct": s2,
+                          "stdout_copy": r1[1].decode(errors="replace"), "stdout_direct": r2[1].decode(errors="replace"), "rc": [r1[0], r2[0]], "stderr": r1[2].decode(errors="replace")[-200:]})
     # ---- every named register: what goes into one comes out of it, whatever its neighbours hold ----
     import string
     rreqs, rmeta = [], []
